@@ -240,14 +240,33 @@ func (a *c09A) tombHit(keyArg func(*Expr) bool) Pat {
 	}
 }
 
-// present: `<fetched map>[tag]` (a TrustAnchors map that is not the state map).
+// present: `<fetched map>[tag]` (a TrustAnchors map that is not the state map),
+// or — since the F-C09-3 repair, where presence is decided on the record and
+// not on its tag — a membership test keyed by the tracked entry's own DNSKey
+// (`_, ok := set[fp(ta.DNSKey)]` / `set[fp(ta.DNSKey)]`) in a map that is
+// neither the state map nor the tombstone store.
 func (a *c09A) present() Pat {
 	return func(e *Expr) bool {
 		e = strip(e)
-		if e == nil || e.K != ELookup || e.CommaOk || e.X == nil || e.X.V == nil {
+		if e == nil {
 			return false
 		}
-		return c09NamedIs(e.X.V.Type(), a.taMapT) && !a.isCurrent(e.X.V)
+		l := e
+		if e.K == EExtract && e.Idx == 1 && e.X != nil && e.X.K == ELookup && e.X.CommaOk {
+			l = e.X
+		} else if e.K != ELookup || e.CommaOk {
+			return false
+		}
+		if l.X == nil || l.X.V == nil {
+			return false
+		}
+		if l == e && c09NamedIs(l.X.V.Type(), a.taMapT) && !a.isCurrent(l.X.V) {
+			return true
+		}
+		if c09NamedIs(l.X.V.Type(), a.tombMapT) || a.isCurrent(l.X.V) {
+			return false
+		}
+		return Contains(FieldIs(a.dnskeyF))(l.Y)
 	}
 }
 
